@@ -29,8 +29,8 @@ ASSUMPTIONS = c03_uuid.ASSUMPTIONS + [
     "re-inserting a module into the very list that already holds it gives the built-in result minus its old occurrence; only the same module twice inside one argument is judged by uniqueness and membership alone",
 ]
 REQUIRED_TAGS = {
-    "quick": ["collection-side-move", "op:load", "op:new", "op:list.insert", "op:set.update", "iso:checked"],
-    "thorough": ["collection-side-move", "op:load", "op:new", "op:list.insert", "op:set.update", "iso:checked"],
+    "quick": ["failed-op:list.setslice-size-negstep", "view-operand:set.ior:other", "view-operand:list.iadd:self", "ctor-children:live-view", "ctor-children:repeated", "index-object:list.delitem", "collection-side-move", "op:load", "op:new", "op:list.insert", "op:set.update", "iso:checked"],
+    "thorough": ["failed-op:list.setslice-size-negstep", "view-operand:set.ior:other", "view-operand:list.iadd:self", "ctor-children:live-view", "ctor-children:repeated", "index-object:list.delitem", "collection-side-move", "op:load", "op:new", "op:list.insert", "op:set.update", "iso:checked"],
 }
 PREFIXES = ("forest:",)
 c03_uuid.ID_OF[PREFIXES] = "C04"
